@@ -53,7 +53,12 @@ class SyncWorld:
         self.log = base.QuietLogger()
         kw = dict(async_mode='threading', logger=self.log)
         kw.update(server_kwargs or {})
-        self.server = engineio.Server(**kw)
+        pos = kw.pop('_positional', None)
+        if pos is not None:
+            # options given by position, in the documented order after async_mode
+            self.server = engineio.Server(kw.pop('async_mode'), *pos, **kw)
+        else:
+            self.server = engineio.Server(**kw)
         s = self.sched
         w = self
 
@@ -434,6 +439,11 @@ class SyncWorld:
         self.vts.clear()
 
 
+def _ws_release_send(self, ws):
+    """The peer starts reading again: writes parked by ws.stall_send complete."""
+    ws.stall_send = False
+
+
 class VWebSocket:
     """Contract shared by the real sync WebSocket wrappers: wait() returns the
     next frame or None once the peer closed (or we closed), send() raises
@@ -477,6 +487,10 @@ class VWebSocket:
         p = self.peer
         if self.closed_local or p.client_closed:
             raise OSError('websocket is closed')
+        if getattr(p, 'stall_send', False):
+            # back-pressure: the peer is not reading, the write blocks inside the socket until it does
+            p.stalled = getattr(p, 'stalled', 0) + 1
+            self.world.sched.block(lambda: not getattr(p, 'stall_send', False), None, 'ws.send(stalled)')
         k = getattr(p, 'nsend', 0)
         p.nsend = k + 1
         fa = getattr(p, 'fail_send_at', None)
@@ -505,3 +519,6 @@ class VWebSocket:
             self.peer.t_server_closed = self.world.clock.now
             for cb in getattr(self.peer, 'on_event', []):
                 cb()
+
+
+SyncWorld.ws_release_send = _ws_release_send
